@@ -1720,3 +1720,182 @@ Proof.
       destruct (run_listeners _ _ _); cbn [wrap] in Hstep; injection Hstep as <- <-; apply Hsame, Hl.
     + injection Hstep as <- <-. apply Hsame. reflexivity.
 Qed.
+
+(* ---------- the `reorged` list only names uuids that have a tracker (reachable invariant) ---------- *)
+
+Definition reorged_tracked (t : tower) : Prop :=
+  forall u, In u (reorged t) -> find_trk (db_trks t) u <> None.
+
+Lemma send_reorged sc t tx : reorged (snd (send_transaction sc t tx)) = reorged t.
+Proof. unfold send_transaction. destruct (aget (car_memo t) tx); reflexivity. Qed.
+
+Lemma reorged_loop_reorged sc h us : forall t rej rej' t',
+  reorged_loop sc h us t rej = Ok rej' t' -> reorged t' = reorged t.
+Proof.
+  induction us as [|uuid us IH]; intros t rej rej' t'; cbn [reorged_loop].
+  - intros H. injection H as _ <-. reflexivity.
+  - destruct (find_trk (db_trks t) uuid) as [k|]; [|apply IH].
+    pose proof (send_reorged sc t (t_dispute k)) as H1.
+    destruct (send_transaction sc t (t_dispute k)) as [s t1]. cbn [snd] in H1.
+    pose proof (send_reorged sc t1 (t_penalty k)) as H2.
+    destruct (send_transaction sc t1 (t_penalty k)) as [s2 t2]. cbn [snd] in H2.
+    destruct s as [hh|hh| |c]; [discriminate| | |intros H; apply IH in H; congruence];
+      (destruct (status_rejected s2); intros H; apply IH in H; [congruence|]);
+      cbn [reorged set_trk_status set_db_trks] in H; congruence.
+Qed.
+
+Lemma stale_loop_reorged sc h us : forall t rej rej' t',
+  stale_loop sc h us t rej = Ok rej' t' -> reorged t' = reorged t.
+Proof.
+  induction us as [|uuid us IH]; intros t rej rej' t'; cbn [stale_loop].
+  - intros H. injection H as _ <-. reflexivity.
+  - destruct (find_trk (db_trks t) uuid) as [k|]; [|discriminate].
+    pose proof (send_reorged sc t (t_penalty k)) as H1.
+    destruct (send_transaction sc t (t_penalty k)) as [s t1]. cbn [snd] in H1.
+    destruct s as [hh|hh| |c]; intros H; apply IH in H; cbn [reorged set_trk_status set_db_trks] in H; congruence.
+Qed.
+
+Lemma gk_delete_reorged t us refund t' :
+  gk_delete_appointments t us refund = Ok tt t' -> reorged t' = reorged t.
+Proof.
+  unfold gk_delete_appointments. destruct refund.
+  - destruct (refund_loop t us) as [[] t1|] eqn:Er; cbn [bind]; [|discriminate].
+    apply refund_loop_same in Er. intros H. injection H as <-. cbn. symmetry. apply Er.
+  - intros H. injection H as <-. reflexivity.
+Qed.
+
+(* after the responder's listener the list of reorged trackers is empty *)
+Lemma r_block_connected_reorged le sc t b h t' :
+  r_block_connected le sc t b h = Ok tt t' -> reorged t' = [].
+Proof.
+  unfold r_block_connected.
+  destruct (ti_update (r_index (set_car_height t h)) b) as [idx|]; [|discriminate].
+  destruct (check_conf_loop le _ h _ _ []) as [comp t2|]; cbn [bind]; [|discriminate].
+  destruct (match comp with [] => Ok tt t2 | _ :: _ => gk_delete_appointments t2 comp true end) as [[] t3|];
+    cbn [bind]; [|discriminate].
+  assert (Htail : forall rej1 t4, reorged t4 = [] ->
+            match u32_sub h (Z.to_N Consts.CONFIRMATIONS_BEFORE_RETRY) with
+            | None => Abort S_r_stale_underflow t4
+            | Some lim =>
+                let stale := map trk_uuid (filter (fun k => negb (t_conf k) && N.leb (t_height k) lim) (db_trks t4)) in
+                do rej2, t5 <- stale_loop sc h stale t4 [];
+                do _, t6 <- (match rej1 ++ rej2 with [] => Ok tt t5 | l => gk_delete_appointments t5 l false end);
+                Ok tt (set_car_memo t6 [])
+            end = Ok tt t' -> reorged t' = []).
+  { intros rej1 t4 H4. destruct (u32_sub h (Z.to_N Consts.CONFIRMATIONS_BEFORE_RETRY)) as [lim|]; [|discriminate].
+    cbv zeta. destruct (stale_loop sc h _ t4 []) as [rej2 t5|] eqn:Es; cbn [bind]; [|discriminate].
+    apply stale_loop_reorged in Es.
+    destruct (rej1 ++ rej2) as [|r0 rs]; cbn [bind].
+    - intros H. injection H as <-. cbn. congruence.
+    - destruct (gk_delete_appointments t5 (r0 :: rs) false) as [[] t6|] eqn:Ed; cbn [bind]; [|discriminate].
+      apply gk_delete_reorged in Ed. intros H. injection H as <-. cbn. congruence. }
+  destruct (reorged t3) as [|r0 rs] eqn:Ere; cbn [bind].
+  - apply Htail. exact Ere.
+  - destruct (reorged_loop sc h (r0 :: rs) (set_reorged t3 []) []) as [rej1 t4|] eqn:Er; cbn [bind]; [|discriminate].
+    apply reorged_loop_reorged in Er. apply Htail. exact Er.
+Qed.
+
+Lemma add_appointment_keeps_trks sc t signer loc b delay sig r t' :
+  w_add_appointment sc t signer loc b delay sig = Ok r t' ->
+  reorged t' = reorged t /\ forall k, In k (db_trks t) -> In k (db_trks t').
+Proof.
+  intros Hw. apply w_add_appointment_inner in Hw.
+  destruct Hw as [[-> _]|[u [ui [av [t1 [_ [_ [_ [Hnt [Hsu [_ Hst]]]]]]]]]]]; [split; auto|].
+  unfold same_but_users in Hsu.
+  assert (Hk1 : db_trks t = db_trks t1) by apply Hsu.
+  assert (Hr1 : reorged t = reorged t1) by apply Hsu.
+  destruct (ti_get (w_cache t) loc) as [d|].
+  - set (a := mk_app loc u b delay sig (w_height t)) in *.
+    assert (Hnt1 : find_trk (db_trks t1) (app_uuid a) = None) by (rewrite <- Hk1; exact Hnt).
+    destruct (store_triggered_spec sc t1 a d t' Hnt1 Hst) as [Hsr [_ [[_ Hoth] _]]].
+    split; [rewrite Hr1; symmetry; apply Hsr|].
+    intros k Hk. rewrite Hk1 in Hk. apply Hoth; [|exact Hk].
+    intros He. rewrite <- He in Hnt1. exact (find_trk_In _ _ Hk Hnt1).
+  - apply store_appointment_spec in Hst. subst t'. cbn. split; [symmetry; exact Hr1|].
+    intros k Hk. rewrite <- Hk1. exact Hk.
+Qed.
+
+Lemma disconnect_reorged hash h t :
+  match run_listeners (listener_disconnected hash h) Consts.LISTENER_ORDER t with
+  | Ok _ t' => db_trks t' = db_trks t /\
+               forall u, In u (reorged t') -> In u (reorged t) \/ In u (map trk_uuid (db_trks t))
+  | Abort _ _ => True
+  end.
+Proof.
+  change (run_listeners (listener_disconnected hash h) Consts.LISTENER_ORDER t) with
+    (do _, t1 <- gk_block_disconnected t h; do _, t2 <- w_block_disconnected t1 hash h;
+     do _, t3 <- r_block_disconnected t2 hash h; Ok tt t3).
+  unfold gk_block_disconnected, w_block_disconnected, r_block_disconnected.
+  destruct (u32_sub h 1); cbn; [|exact I]. split; [reflexivity|].
+  intros u Hu. apply in_app_or in Hu. destruct Hu as [Hu|Hu]; [left; exact Hu|right].
+  apply filter_In in Hu. destruct Hu as [Hu _]. apply in_map_iff in Hu. destruct Hu as [k [<- Hk]].
+  apply filter_In in Hk. apply in_map. apply Hk.
+Qed.
+
+Lemma in_uuids_find trks u : In u (map trk_uuid trks) -> find_trk trks u <> None.
+Proof. intros Hi Hn. exact (find_trk_None _ _ Hn Hi). Qed.
+
+Theorem reorged_tracked_step le t o sc t' x :
+  reorged_tracked t -> step le t o sc = (t', x) -> not_abort x -> reorged_tracked t'.
+Proof.
+  intros HR Hstep Hna.
+  assert (Hkeep : reorged t' = reorged t -> (forall k, In k (db_trks t) -> In k (db_trks t')) -> reorged_tracked t').
+  { intros Hr Hk u Hu. rewrite Hr in Hu. specialize (HR u Hu).
+    destruct (find_trk (db_trks t) u) as [k|] eqn:Ef; [|congruence].
+    apply find_trk_Some in Ef. destruct Ef as [Hi <-]. apply find_trk_In, Hk, Hi. }
+  destruct o as [u|signer loc b delay sig|signer loc|signer|hash txs|].
+  - cbn [step] in Hstep. pose proof (add_update_user_trks (set_rpc_log t []) u) as Hl.
+    destruct (gk_add_update_user (set_rpc_log t []) u); cbn [wrap] in Hstep; injection Hstep as <- <-;
+      destruct Hl as [Hl1 Hl2]; apply Hkeep; [exact Hl2|rewrite Hl1; auto|exact Hl2|rewrite Hl1; auto].
+  - cbn [step] in Hstep.
+    destruct (w_add_appointment sc (set_rpc_log t []) signer loc b delay sig) as [r t1|] eqn:Ew; cbn [wrap] in Hstep;
+      injection Hstep as <- <-; [|destruct Hna].
+    apply add_appointment_keeps_trks in Ew. destruct Ew as [H1 H2]. apply Hkeep; [exact H1|exact H2].
+  - destruct (get_unchanged le t sc signer loc) as [r Hr]. rewrite Hr in Hstep. injection Hstep as <- <-.
+    apply Hkeep; [reflexivity|auto].
+  - destruct (getsub_unchanged le t sc signer) as [r Hr]. rewrite Hr in Hstep. injection Hstep as <- <-.
+    apply Hkeep; [reflexivity|auto].
+  - destruct (connect_ok le t hash txs sc t' x Hstep Hna) as [tg [tw [_ [_ Er]]]].
+    apply r_block_connected_reorged in Er. intros u Hu. rewrite Er in Hu. destruct Hu.
+  - cbn [step] in Hstep. destruct (last_hash (set_rpc_log t [])) as [hash|].
+    + pose proof (disconnect_reorged hash (gk_height (set_rpc_log t [])) (set_rpc_log t [])) as Hl.
+      destruct (run_listeners _ _ _); cbn [wrap] in Hstep; injection Hstep as <- <-; [|destruct Hna].
+      destruct Hl as [Hk Hr]. cbn [db_trks reorged set_rpc_log] in Hk, Hr. intros u Hu. rewrite Hk.
+      destruct (Hr u Hu) as [H|H]; [apply HR; exact H|apply in_uuids_find; exact H].
+    + injection Hstep as <- <-. apply Hkeep; [reflexivity|auto].
+Qed.
+
+Theorem reorged_tracked_reachable le c h0 blocks t0 : forall h,
+  init c h0 blocks = Some t0 -> Forall not_abort (snd (run le t0 h)) -> reorged_tracked (fst (run le t0 h)).
+Proof.
+  intros h Hi. assert (H0 : reorged_tracked t0).
+  { unfold init in Hi. destruct (ti_new _ _); [|discriminate]. destruct (ti_new _ _); [|discriminate].
+    injection Hi as <-. intros u []. }
+  clear Hi. revert t0 H0. induction h as [|[o sc] h IH]; intros t0 H0; cbn [run]; [intros _; exact H0|].
+  pose proof (reorged_tracked_step le t0 o sc) as H1.
+  destruct (step le t0 o sc) as [t1 x]. specialize (H1 t1 x H0 eq_refl).
+  destruct x; try (specialize (IH t1); destruct (run le t1 h) as [t2 xs]; cbn [fst snd] in *;
+                   intros Hall; inversion Hall; subst; apply IH; [apply H1; exact I|assumption]).
+  cbn [fst snd]. intros Hall. inversion Hall; subst. contradiction.
+Qed.
+
+(* C02, every_send_justified in its four-way form: with `reorged` naming only uuids that have a
+   tracker (true of every reachable state: reorged_tracked_reachable) the corner case of just_send
+   cannot occur *)
+Definition just_send4 (t : tower) (o : op) (tx : N) : Prop :=
+  (exists hash txs a, o = OConnect hash txs /\ In a (db_apps t) /\ In (a_loc a) txs /\
+                      decrypt (a_blob a) (a_loc a) = Some tx) \/
+  (exists k, In k (db_trks t) /\ t_penalty k = tx) \/
+  (exists k, In k (db_trks t) /\ mem_uuid (trk_uuid k) (reorged t) = true /\ t_dispute k = tx) \/
+  (exists u loc b delay sig d, o = OAdd (Some u) loc b delay sig /\ ti_get (w_cache t) loc = Some d /\
+                               decrypt b d = Some tx).
+
+Theorem every_send_justified le t o sc t' x :
+  Inv t -> reorged_tracked t -> step le t o sc = (t', x) -> not_abort x ->
+  forall e, In e (rpc_log t') -> r_kind e = K_send -> just_send4 t o (r_tx e).
+Proof.
+  intros HI HR Hstep Hna e He Hk. pose proof (every_rpc_justified le t o sc t' x HI Hstep Hna e He) as Hj.
+  unfold just_rpc in Hj. rewrite Hk in Hj. unfold just_send4.
+  destruct Hj as [H|[H|[H|[H|[hash [txs [a [_ [_ [_ [_ [Hf Hm]]]]]]]]]]]]; auto.
+  exfalso. apply mem_uuid_In in Hm. exact (HR _ Hm Hf).
+Qed.
